@@ -158,7 +158,8 @@ def write_evidence(prop, tier, seed, ctx, mod, listed, unlisted, extra, wall):
         wall_s=round(wall, 3),
         violations=len(unlisted) + len(extra.get("violations", []) if extra else []),
         coverage=dict(
-            explanation=getattr(mod, "EXPLANATION", "") + " Decided by static analysis of every structural path "
+            explanation=getattr(mod, "EXPLANATION", "") + " Rule .api: option defaults and refusals of the anchored functions equal the "
+                        "census sa/contract.json." + " Decided by static analysis of every structural path "
             "of the anchored functions in the current /repo/src/physt; physt is never imported or run.",
             not_decided=getattr(mod, "NOT_DECIDED", ""),
             obligations=len(ctx.results),
